@@ -51,3 +51,23 @@ package diags
 //@   loop 2 invariant lineIndex >= 1 && lineIndex <= len(lines) && columnIndex >= 1 && 0 <= needIndex && needIndex < len(val.Value) && need == val.Value[needIndex]
 //@   loop 2 invariant len(offsets) > 0 ==> lineIndex >= 1
 //@   safe
+
+//@ func countDigits [C02]
+//@   ensures c >= 0
+//@   loop 1 invariant c >= 0
+
+//@ func lineCoverage [C02]
+//@   ensures (exists i int :: 0 <= i && i < len(diags) && len(diags[i].Pos) > 0) ==> len(lines) >= 1
+//@   loop 1 invariant 0 <= iter && iter <= len(diags)
+//@   loop 1 invariant (exists i int :: 0 <= i && i < iter && len(diags[i].Pos) > 0) ==> len(lines) >= 1
+//@   loop 2 invariant 0 <= iter && iter <= len(diag.Pos) && 1 <= iter1 && iter1 <= len(diags) && diag == diags[iter1-1]
+//@   loop 2 invariant (exists i int :: 0 <= i && i < iter1-1 && len(diags[i].Pos) > 0) ==> len(lines) >= 1
+//@   loop 2 invariant iter > 0 ==> len(lines) >= 1
+//@   safe
+
+// Rendering a problem never crashes, provided at least one diagnostic carries a position.
+//@ func InjectDiagnostics [C02]
+//@   requires exists i int :: 0 <= i && i < len(diags) && len(diags[i].Pos) > 0
+//@   loop 2 invariant 0 <= iter && iter <= len(diags)
+//@   loop 3 invariant 0 <= iter && iter < i && i < len(diags)
+//@   safe
